@@ -21,6 +21,7 @@ import Driver.GrammarCmd
 import Driver.TkCmd
 import Driver.TensorCmd
 import Driver.CQCmd
+import Driver.DzCmd
 
 def handlers : List (String → List String → Option String) :=
   [ DV.CoreCmd.handle
@@ -38,6 +39,7 @@ def handlers : List (String → List String → Option String) :=
   , DV.TkCmd.handle
   , DV.TensorCmd.handle
   , DV.CQCmd.handle
+  , DV.DzCmd.handle
   ]
 
 def handle (line : String) : String :=
